@@ -64,20 +64,20 @@ def run(rep):
              'adapter_hook(provided, object, ...); adapter_hook looks up '
              '(providedBy(object),); queryMultiAdapter / subscribers map '
              'providedBy over the objects in order; names = first components '
-             'of lookupAll)', floor=8)
+             'of lookupAll)', floor=9)
     rep.rule('R08.2', 'cache-key agreement: lookup stores and reads under '
              'required[0] iff len(required) == 1, else under the tuple; '
              'lookup1 and adapter_hook probe the same _getcache(provided, '
-             'name) container with the bare specification', floor=4)
+             'name) container with the bare specification; caches are filled '
+             'only with the value of the matching uncached call', floor=4)
     rep.rule('R08.3', 'the name guard (ValueError for non-str names) '
              'dominates every cache access in lookup, lookup1, adapter_hook',
              floor=3)
     rep.rule('R08.4', '_lookupAll polarity: most specific registration wins '
              'per name (same winner as lookup); _uncached_lookupAll: nearest '
-             'registry wins', floor=14)
-    rep.rule('R08.5', 'result handling: None result -> default (identity '
-             'test), factory called with super proxies unwrapped, subscribers '
-             'keeps non-None results in order / calls all handlers', floor=5)
+             'registry wins', floor=12)
+    rep.rule('R08.5', 'C twin result handling: None -> default after the cache '
+             'store; factory called with super proxies unwrapped', floor=3)
     rep.rule('R08.6', 'all nine entry points are delegated from the registry '
              'to its lookup object', floor=1)
     rep.rule('R08.7', 'verifying registries: every entry point (Python '
@@ -109,230 +109,57 @@ def run(rep):
         rep.check('R08.1', 'LookupBase.' + f.name, sig(f) == want[f.name],
                   'signature %s' % sig(f), construct='signature', node=f)
 
-    # ---- R08.1 delegation ---------------------------------------------------
-    # lookup1: miss -> lookup((required,), provided, name, default)
-    dele = find_all(lookup1, 'self.lookup($$a)')
-    ok = len(dele) == 1 and \
-        match('self.lookup((required,), provided, name, default)', dele[0][0]) is not None \
-        and isinstance(dele[0][0].parent, ast.Return)
-    rep.check('R08.1', 'LookupBase.lookup1', ok,
-              'cache miss returns self.lookup((required,), provided, name, default): %s'
-              % [norm_src(c) for c, _ in dele], construct='delegate', node=lookup1)
+    # ---- R08.1 / R08.2 / R08.5 (semantic, over path summaries) -----------------
+    from . import sem
     rets = [n for n in walk_local(qa) if isinstance(n, ast.Return)]
     ok = len(rets) == 1 and match(
         'self.adapter_hook(provided, object, name, default)', rets[0].value) is not None
     rep.check('R08.1', 'LookupBase.queryAdapter', ok,
               'returns self.adapter_hook(provided, object, name, default): %s'
               % [norm_src(r.value) for r in rets], construct='delegate', node=qa)
-    # adapter_hook
-    req = resolve_local(hook, ast.Name(id='required', ctx=ast.Load()))
-    okreq = match('providedBy(object)', req) is not None
-    dele = find_all(hook, 'self.lookup($$a)')
-    okd = len(dele) == 1 and match('self.lookup((required,), provided, name)',
-                                   dele[0][0]) is not None
-    rep.check('R08.1', 'LookupBase.adapter_hook', okreq and okd,
-              'required = %s; miss -> %s' % (norm_src(req),
-                                            [norm_src(c) for c, _ in dele]),
-              construct='delegate', node=hook)
-    # queryMultiAdapter
-    dele = find_all(qma, 'self.lookup($$a)')
-    ok = len(dele) == 1 and (
-        match('self.lookup([providedBy($o) for $o in objects], provided, name)',
-              dele[0][0]) is not None or
-        match('self.lookup(tuple([providedBy($o) for $o in objects]), provided, name)',
-              dele[0][0]) is not None or
-        match('self.lookup(list(map(providedBy, objects)), provided, name)',
-              dele[0][0]) is not None)
-    rep.check('R08.1', 'AdapterLookupBase.queryMultiAdapter', ok,
-              'factory = %s' % [norm_src(c) for c, _ in dele],
-              construct='delegate', node=qma)
-    rets = [n for n in walk_local(names) if isinstance(n, ast.Return)]
-    ok = len(rets) == 1 and match(
-        '[$c[0] for $c in self.lookupAll(required, provided)]', rets[0].value) is not None
-    rep.check('R08.1', 'AdapterLookupBase.names', ok,
-              'returns %s' % [norm_src(r.value) for r in rets],
-              construct='delegate', node=names)
-    dele = find_all(subs, 'self.subscriptions($$a)')
-    ok = len(dele) == 1 and (
-        match('self.subscriptions([providedBy($o) for $o in objects], provided)',
-              dele[0][0]) is not None or
-        match('self.subscriptions(list(map(providedBy, objects)), provided)',
-              dele[0][0]) is not None)
-    rep.check('R08.1', 'AdapterLookupBase.subscribers', ok,
-              'subscriptions = %s' % [norm_src(c) for c, _ in dele],
-              construct='delegate', node=subs)
-
-    # ---- R08.2 cache key agreement -----------------------------------------
-    def cache_from_getcache(f):
-        c = resolve_local(f, ast.Name(id='cache', ctx=ast.Load()))
-        return match('self._getcache(provided, name)', c) is not None, norm_src(c)
-    for f in (lookup, lookup1, hook):
-        ok, txt = cache_from_getcache(f)
-        rep.check('R08.2', 'LookupBase.' + f.name, ok,
-                  'cache container = %s (required self._getcache(provided, name))'
-                  % txt, construct='container', node=f)
-    # lookup: reads and writes
-    reads = find_all(lookup, 'cache.get($k, $$d)')
-    writes = [n for n in walk_local(lookup) if isinstance(n, ast.Assign)
-              and match('cache[$k]', n.targets[0]) is not None]
-    def key_ok(node, key):
-        """key is required[0] under len(required)==1 (T branch) or
-        tuple(required)/required otherwise."""
-        st = shared.stmt_of(node)
-        g = st.parent
-        if not isinstance(g, ast.If):
-            return False
-        t = match('len(required) == 1', g.test) is not None
-        if not t:
-            return False
-        if st in g.body:
-            return match('required[0]', key) is not None
-        return match('tuple(required)', key) is not None or \
-            match('required', key) is not None
-    okr = len(reads) == 2 and all(key_ok(c, e['k']) for c, e in reads)
-    okw = len(writes) == 2 and all(
-        key_ok(w, match('cache[$k]', w.targets[0])['k']) for w in writes)
-    reqdef = [n for n in walk_local(lookup) if isinstance(n, ast.Assign)
-              and match('required = $v', n, 'exec') is not None]
-    okt = all(match('tuple(required)', n.value) is not None for n in reqdef)
-    rep.check('R08.2', 'LookupBase.lookup', okr and okw and okt,
-              'reads %s / writes %s keyed by required[0] iff len(required) == 1 '
-              'else the tuple (reads ok %s, writes ok %s)'
-              % ([norm_src(c) for c, _ in reads],
-                 [norm_src(w.targets[0]) for w in writes], okr, okw),
-              construct='keys', node=lookup)
-    for f, key in ((lookup1, 'required'), (hook, 'required')):
-        probes = find_all(f, 'cache.get($k, $$d)')
-        ok = len(probes) == 1 and match(key, probes[0][1]['k']) is not None
-        rep.check('R08.2', 'LookupBase.' + f.name, ok,
-                  'probes the single-spec slot with the bare specification: %s'
-                  % [norm_src(c) for c, _ in probes], construct='probe', node=f)
-    # _getcache: name level only for truthy names; both levels keyed exactly
+    sem.lookup1_spec(rep, 'R08.1', lookup1, 'LookupBase.lookup1')
+    sem.adapter_hook_spec(rep, 'R08.1', hook, 'LookupBase.adapter_hook')
+    sem.query_multi_spec(rep, 'R08.1', qma, 'AdapterLookupBase.queryMultiAdapter')
+    sem.names_spec(rep, 'R08.1', names, 'AdapterLookupBase.names')
+    sem.subscribers_spec(rep, 'R08.1', subs, 'AdapterLookupBase.subscribers')
+    sem.cached_lookup_spec(rep, 'R08.2', lookup, 'LookupBase.lookup', '_uncached_lookup',
+                           '_getcache', 'single-or-tuple', True,
+                           ['required', 'provided', 'name'])
+    sem.cached_lookup_spec(rep, 'R08.2', find_def(mod, 'LookupBase.lookupAll'),
+                           'LookupBase.lookupAll', '_uncached_lookupAll', '_mcache',
+                           'tuple', False, ['required', 'provided'])
+    sem.cached_lookup_spec(rep, 'R08.2', find_def(mod, 'LookupBase.subscriptions'),
+                           'LookupBase.subscriptions', '_uncached_subscriptions',
+                           '_scache', 'tuple', False, ['required', 'provided'])
+    # _getcache: two levels, the name level only for non-empty names
     gc = find_def(mod, 'LookupBase._getcache')
-    ok = bool(find_all(gc, 'self._cache.get(provided)')) and \
-        bool(find_all(gc, 'self._cache[provided] = $c', 'exec')) and \
-        bool(find_all(gc, 'cache.get(name)')) and \
-        bool(find_all(gc, 'cache[name] = $c', 'exec'))
-    ifs = [n for n in walk_local(gc) if isinstance(n, ast.If)
-           and match('name', n.test) is not None]
-    rep.check('R08.2', 'LookupBase._getcache', ok and len(ifs) == 1,
-              'two-level cache keyed by provided, then (for non-empty names) '
-              'by name', construct='levels', node=gc)
+    gs = sem.normal(sem.summaries(gc))
+    probs = []
+    for ps in gs:
+        nm = ps.fact('name')
+        ret = sem.nt(ps.ret)
+        lvl1 = ('self._cache.get(provided)', '{}')
+        if nm is None:
+            probs.append('no test of the name on a path')
+        elif not nm and ret not in lvl1:
+            probs.append('empty name returns `%s`' % ret[:50])
+        elif nm and not (ret == '{}' or ret.endswith('.get(name)')):
+            probs.append('named lookup returns `%s`' % ret[:50])
+    rep.check('R08.2', 'LookupBase._getcache', not probs and len(gs) >= 4,
+              'two-level cache keyed by provided, then (for non-empty names) by name'
+              if not probs else {'problems': sorted(set(probs))}, construct='levels',
+              node=gc)
 
     # ---- R08.3 --------------------------------------------------------------
     for f in (lookup, lookup1, hook):
         name_guard(rep, 'R08.3', f, 'LookupBase.' + f.name)
 
     # ---- R08.4 --------------------------------------------------------------
-    shared.check_collect_walker(rep, 'R08.4', find_def(mod, '_lookupAll'), 'update')
-    shared.check_registry_walk_collect(
+    sem.check_walkers(rep, 'R08.4', find_def(mod, '_lookupAll'), 'update')
+    sem.registry_walk_spec(
         rep, 'R08.4', find_def(mod, 'AdapterLookupBase._uncached_lookupAll'),
-        '_lookupAll', '_adapters')
-
-    # ---- R08.5 result tables --------------------------------------------------
-    shared.check_default_tail(rep, 'R08.5', lookup, 'LookupBase.lookup')
-    # lookup1: hit None -> default; hit value -> value
-    cfg = cfg_of(lookup1)
-    rets = [n for n in walk_local(lookup1) if isinstance(n, ast.Return)]
-    vals = sorted(norm_src(r.value) for r in rets)
-    okl1 = vals == sorted(['self.lookup((required,), provided, name, default)',
-                           'default', 'result'])
-    for r in rets:
-        if isinstance(r.value, ast.Name) and r.value.id == 'default':
-            g = r.parent
-            okl1 = okl1 and isinstance(g, ast.If) and \
-                match('result is None', g.test) is not None and r in g.body
-        if isinstance(r.value, ast.Call):
-            g = r.parent
-            okl1 = okl1 and isinstance(g, ast.If) and \
-                match('result is _not_in_mapping', g.test) is not None and r in g.body
-    rep.check('R08.5', 'LookupBase.lookup1', okl1,
-              'miss -> delegate; cached None -> default; else the cached value '
-              '(returns %s)' % vals, construct='table', node=lookup1)
-    # adapter_hook
-    cfg = cfg_of(hook)
-    calls = find_all(hook, 'factory($$a)')
-    okh = len(calls) == 1 and match('factory(object)', calls[0][0]) is not None
-    unwrap = find_all(hook, 'object = object.__self__', 'exec')
-    oku = False
-    if unwrap and okh:
-        u = unwrap[0][0]
-        g = u.parent
-        oku = isinstance(g, ast.If) and match('isinstance(object, super)', g.test) \
-            is not None and u in g.body
-        # unwrap happens after the lookup and before the factory call
-        cn = cfg.node_of(calls[0][0])
-        un = cfg.node_of(u)
-        oku = oku and cn.id in cfg.reach(un) and all(
-            un.id in cfg.reach(cfg.node_of(c)) for c, _ in
-            find_all(hook, 'providedBy(object)'))
-    guard_f = False
-    if okh:
-        st = shared.stmt_of(calls[0][0])
-        p = st.parent
-        guard_f = isinstance(p, ast.If) and \
-            match('factory is not None', p.test) is not None and st in p.body
-    rets = [n for n in walk_local(hook) if isinstance(n, ast.Return)]
-    vals = sorted(norm_src(r.value) for r in rets)
-    okret = vals == ['default', 'result']
-    for r in rets:
-        if isinstance(r.value, ast.Name) and r.value.id == 'result':
-            g = r.parent
-            okret = okret and isinstance(g, ast.If) and \
-                match('result is not None', g.test) is not None
-    rep.check('R08.5', 'LookupBase.adapter_hook', okh and oku and guard_f and okret,
-              'factory(object) only when factory is not None (%s); super '
-              'proxy replaced by __self__ after the lookup and before the '
-              'call (%s); non-None result returned else default (%s)'
-              % (guard_f, oku, okret), construct='table', node=hook)
-    # queryMultiAdapter
-    calls = find_all(qma, 'factory($$a)')
-    okc = len(calls) == 1 and (
-        match('factory(*[$o.__self__ if isinstance($o, super) else $o for $o in objects])',
-              calls[0][0]) is not None)
-    rets = [n for n in walk_local(qma) if isinstance(n, ast.Return)]
-    vals = sorted(norm_src(r.value) for r in rets)
-    okr = vals == ['default', 'default', 'result']
-    guards = sorted(norm_src(r.parent.test) for r in rets
-                    if isinstance(r.parent, ast.If))
-    okr = okr and guards == ['factory is None', 'result is None']
-    rep.check('R08.5', 'AdapterLookupBase.queryMultiAdapter', okc and okr,
-              'factory called with the objects in order, super proxies '
-              'unwrapped (%s); None factory/result -> default (%s)' % (okc, okr),
-              construct='table', node=qma)
-    # subscribers
-    ifs = [n for n in subs.body if isinstance(n, ast.If)
-           and match('provided is None', n.test) is not None]
-    oks = len(ifs) == 1
-    if oks:
-        i = ifs[0]
-        hl = [n for n in i.body if isinstance(n, ast.For)]
-        al = [n for n in i.orelse if isinstance(n, ast.For)]
-        oks = len(hl) == 1 and len(al) == 1
-        if oks:
-            for lp in (hl[0], al[0]):
-                src, d = iter_polarity(lp.iter)
-                oks = oks and d == 'fwd' and isinstance(src, ast.Name) \
-                    and src.id == 'subscriptions'
-                v = lp.target.id
-                oks = oks and len(find_all(lp, '%s(*objects)' % v)) == 1
-                oks = oks and not [n for n in walk_local(lp) if isinstance(
-                    n, (ast.Break, ast.Return, ast.Continue))]
-            # adapters: append iff not None
-            ap = find_all(al[0], 'result.append($s)')
-            oks = oks and len(ap) == 1
-            if oks:
-                g = shared.stmt_of(ap[0][0]).parent
-                oks = isinstance(g, ast.If) and match(
-                    '%s is not None' % norm_src(ap[0][1]['s']), g.test) is not None
-            oks = oks and any(match('result = ()', s, 'exec') is not None
-                              for s in i.body)
-            oks = oks and any(match('result = []', s, 'exec') is not None
-                              for s in i.orelse)
-    rep.check('R08.5', 'AdapterLookupBase.subscribers', oks,
-              'provided None: every subscription called with *objects, returns (); '
-              'else non-None results kept in subscription order',
-              construct='table', node=subs)
+        '_lookupAll', '_adapters', 'rev', False, ['{}', '0', 'len(required)'],
+        'tuple({}.items())')
 
     # ---- R08.6 ----------------------------------------------------------------
     cls = find_def(mod, 'BaseAdapterRegistry')
